@@ -1,0 +1,30 @@
+//go:build verif
+// +build verif
+
+// Command verifstringer runs the repository's forked stringer on a types file
+// and prints the result. It exists only because internal/fitstringer cannot be
+// imported from outside cmd/fitgen; it is compiled only with the "verif" tag.
+//
+// usage: verifstringer <types.go> <Type1,Type2,...>
+package main
+
+import (
+	"fmt"
+	"os"
+	"strings"
+
+	"github.com/tormoder/fit/cmd/fitgen/internal/fitstringer"
+)
+
+func main() {
+	if len(os.Args) != 3 {
+		fmt.Fprintln(os.Stderr, "usage: verifstringer <types.go> <Type1,Type2,...>")
+		os.Exit(2)
+	}
+	out, err := fitstringer.Generate(strings.Split(os.Args[2], ","), os.Args[1])
+	if err != nil {
+		fmt.Fprintln(os.Stderr, err)
+		os.Exit(1)
+	}
+	os.Stdout.Write(out)
+}
